@@ -2,4 +2,4 @@ SPECIFICATION Spec
 CHECK_DEADLOCK FALSE
 INVARIANT LookupIsLeastHit
 INVARIANT NoNearest
-CONSTANT Big = FALSE
+CONSTANT Big = TRUE
